@@ -142,6 +142,50 @@ def fault(nmax, kinds, enc, blocked):
     return h
 
 
+def two_step(enc, blocked):
+    """some records taken with next(), the rest with a for loop (iter() is called again): the error must still name record k"""
+    def h():
+        core.FUEL.set(24)
+        m = M().mciipm
+        iso = M().iso8583
+        pre = choose('taken_first', [1, 2])
+        k = choose('k', [pre + 1, pre + 2])
+        kind = choose('kind', ['bad-mti', 'bad-typed-value', 'oversize', 'truncated'])
+        n = k
+        f = RopeFile()
+        w = m.VbsWriter(f, blocked=blocked)
+        stream = 0
+        for i in range(1, n + 1):
+            if i == k and kind == 'oversize':
+                w.out_file.write(struct.pack('>I', 70000))
+            elif i == k and kind != 'truncated':
+                w.write(bad_bodies(enc)[kind])
+            else:
+                msg, elems = _good(i, enc, 50)
+                body = iso.dumps(dict(msg), encoding=enc)
+                stream = stream + 4 + rlen(body)
+                w.write(body)
+        w.close()
+        data = f.getvalue()
+        if kind == 'truncated':
+            data = sl(data, 0, stream - 3)        # all records fit the first block: file offset == stream offset; the last record loses 3 bytes
+        rp = {'kind': 'twostep', 'args': {'pre': pre, 'k': k, 'fault': kind, 'enc': enc, 'blocked': blocked}}
+        rd = m.IpmReader(RopeFile(data), encoding=enc, blocked=blocked)
+        err = None
+        with guard('IpmReader', 'C10/exception', rp, allow=(m.MciIpmDataError,)):
+            for _ in range(pre):
+                next(rd)
+            try:
+                for d in rd:
+                    core.FUEL.set(24)
+            except m.MciIpmDataError as e:
+                err = e
+        require(err is not None, 'no error raised', key='C10/two-step', replay=rp)
+        require(err.record_number == k, 'bad record %d reported as %s after taking %d records with next()' % (k, err.record_number, pre), key='C10/two-step', replay=rp)
+        return {'sample': dict(rp['args'], reported=err.record_number), 'replay': rp}
+    return h
+
+
 def two_faults(enc, blocked):
     """two bad records in one file; the consumer catches the first error and keeps iterating"""
     def h():
@@ -204,6 +248,8 @@ def obligations(tier):
             obs.append(Ob('message/' + tag, fault(nmax, msgkinds, enc, blocked), 600,
                           'n in 1..%d records, every k, message-level faults %s' % (nmax, msgkinds), _funcs))
     for blocked in (False, True):
+        obs.append(Ob('two-step/latin_1/%s' % ('1014' if blocked else 'vbs'), two_step('latin_1', blocked), 300,
+                      'one or two records taken with next(), the rest with a for loop; fault kinds bad MTI / bad value / oversize / truncated', _funcs))
         obs.append(Ob('two-faults/latin_1/%s' % ('1014' if blocked else 'vbs'), two_faults('latin_1', blocked), 300,
                       'two bad records (positions k1 < k2, every message-level kind first, then bad MTI / bad value / oversize), consumer continues after the first error', _funcs))
     return obs
